@@ -1,5 +1,6 @@
 import CsVerif.Model.PyFile
 import CsVerif.Model.C20
+import CsVerif.Model.C15
 /-
 C09 — XorEncoded file view
   dissect/cobaltstrike/xordecode.py   iter_nonce_offsets (26-57), XorEncodedFile (60-182)
@@ -7,7 +8,7 @@ C09 — XorEncoded file view
 
 The model follows the code as it is in /repo now (after fix 5b1e7f7: `read` returns early for
 `n == 0`, treats `None`/negative `n` as "read everything" and seeks back over the surplus of the
-last 4-byte chunk; after fix f64b15d: `read_nonce` restores the cursor with `self.fh.seek(pos)`).  Raw layout of an encoded stage:  stub ++ nonce(4) ++ size(4) ++ enc.
+last 4-byte chunk; after fix f64b15d: `read_nonce` restores the cursor with `self.fh.seek(pos)`; after fix 13416c7: `seek` clamps at logical 0).  Raw layout of an encoded stage:  stub ++ nonce(4) ++ size(4) ++ enc.
 -/
 namespace C09
 
@@ -69,12 +70,35 @@ def readNonceOld (x : XorFile) : Py (Bytes × XorFile) :=
 /-- `tell()` -/
 def tell (x : XorFile) : Int := (x.fh.tell : Int) - ((x.nonceOff : Int) + 8)
 
-/-- `seek(offset, whence)`: only SEEK_SET is translated; the value returned is the RAW offset. -/
-def seek (x : XorFile) (off : Int) (whence : Nat) : Py (Nat × XorFile) :=
+/-- `seek(offset, whence)` as it was before fix 13416c7 (only SEEK_SET translated, no lower bound): kept only to show
+that the refinement theorem distinguishes the two (`Props/C09.lean`, `negative_seek_exact_old`,
+`history_refines_all_seeks_refutes_old`). -/
+def seekOld (x : XorFile) (off : Int) (whence : Nat) : Py (Nat × XorFile) :=
   let r := if whence = 0 then x.fh.seek (off + (x.nonceOff : Int) + 8) whence else x.fh.seek off whence
   match r with
   | .error e => .error e
   | .ok (v, f) => .ok (v, { x with fh := f })
+
+/-- the last line of `seek`: `return self.fh.seek(max(target, 0) + base)`; the value returned is the RAW offset. -/
+def seekTo (x : XorFile) (target : Int) : Py (Nat × XorFile) :=
+  match x.fh.seekSet (max target 0 + ((x.nonceOff : Int) + 8)) with
+  | .error e => .error e
+  | .ok (v, f) => .ok (v, { x with fh := f })
+
+/-- `seek(offset, whence)` (after fix 13416c7): the logical target is computed for every `whence` and clamped at 0
+(like `io.BytesIO`); a negative absolute offset and an unknown `whence` raise ValueError before anything moves;
+SEEK_END first moves the raw cursor to the end (`self.fh.seek(0, io.SEEK_END)`). -/
+def seek (x : XorFile) (off : Int) (whence : Nat) : Py (Nat × XorFile) :=
+  match whence with
+  | 0 =>                                                  -- if whence == io.SEEK_SET:
+    if off < 0 then .error .valueError                    --   if offset < 0: raise ValueError
+    else seekTo x off                                     --   target = offset
+  | 1 => seekTo x (tell x + off)                          -- target = self.tell() + offset
+  | 2 =>
+    match x.fh.seekEnd 0 with                             -- target = self.fh.seek(0, io.SEEK_END) - base + offset
+    | .error e => .error e
+    | .ok (v, f1) => seekTo { x with fh := f1 } ((v : Int) - ((x.nonceOff : Int) + 8) + off)
+  | _ => .error .valueError                               -- raise ValueError("invalid whence …")
 
 theorem readLoop_progress (f : PyFile) (h : ¬ (f.read 4).1 = []) :
     (f.read 4).2.data.length - (f.read 4).2.pos < f.data.length - f.pos := by
@@ -152,8 +176,24 @@ def run (x : XorFile) : List Op → Py (List Out × XorFile)
       | .error e => .error e
       | .ok (os, x'') => .ok (o :: os, x'')
 
+/-- the same with the pre-13416c7 `seek` (only for `history_refines_all_seeks_refutes_old`) -/
+def stepOpOld (x : XorFile) : Op → Py (Out × XorFile)
+  | .seek off wh => (seekOld x off wh).map fun r => (.seek r.1, r.2)
+  | op => stepOp x op
+
+def runOld (x : XorFile) : List Op → Py (List Out × XorFile)
+  | [] => .ok ([], x)
+  | op :: ops =>
+    match stepOpOld x op with
+    | .error e => .error e
+    | .ok (o, x') =>
+      match runOld x' ops with
+      | .error e => .error e
+      | .ok (os, x'') => .ok (o :: os, x'')
+
 /-- trace used by the driver: an operation that raises leaves the object unchanged
-(only `seek` can raise, and a failed `seek` does not move a Python file). -/
+(only `seek` can raise — ValueError for a negative absolute offset or an unknown whence — and it does so before
+anything moves). -/
 def runTrace (x : XorFile) : List Op → List (Py Out)
   | [] => []
   | op :: ops =>
@@ -190,6 +230,14 @@ def plainRun (f : PyFile) : List Op → Py (List Out × PyFile)
       match plainRun f' ops with
       | .error e => .error e
       | .ok (os, f'') => .ok (o :: os, f'')
+
+/-- the plain file's trace in the driver's convention (`runTrace`): a raising operation leaves the file unchanged -/
+def plainTrace (f : PyFile) : List Op → List (Py Out)
+  | [] => []
+  | op :: ops =>
+    match plainStep f op with
+    | .error e => .error e :: plainTrace f ops
+    | .ok (o, f') => .ok o :: plainTrace f' ops
 
 /-- `XorEncodedFile.seek` returns the raw offset: logical result shifted by `nonce_offset + 8`. -/
 def Out.shift (base : Nat) : Out → Out
@@ -360,5 +408,27 @@ def fromFileFull (f : PyFile) (maxrange : Nat) (markerHits : List Nat) : Py XorF
   match iterNonceOffsets f none maxrange with
   | .error e => .error e
   | .ok (nonceOffs, f1) => tryCandidatesFull f1 (candidates markerHits nonceOffs)
+
+/-! ### `from_file` with the real needle scanner (`utils.iter_find_needle`, model `C15.iterFindNeedle`) -/
+
+/-- `XorEncodedFile.EOF_SHELLCODE_MARKER` -/
+def eofMarker : Bytes := [0xff, 0xff, 0xff]
+
+/-- `list(iter_find_needle(fh, cls.EOF_SHELLCODE_MARKER, start_offset=0, max_offset=maxrange))` and the file
+afterwards; `B = io.DEFAULT_BUFFER_SIZE`.  (`max_offset = 0` means "no limit" in `iter_find_needle`.) -/
+def markerScan (B : Nat) (f : PyFile) (maxrange : Nat) : Py (List Int × PyFile) :=
+  C15.iterFindNeedle B f eofMarker (some 0) maxrange
+
+/-- `XorEncodedFile.from_file(fh, maxrange)` with nothing left as a parameter: size relation scan, marker scan
+by the real block scanner on the file as `iter_nonce_offsets` left it, `Counter` ranking, modelled
+`find_mz_offset` on each candidate view.  The scanner's offsets are Python ints; they are never negative
+(`Lemmas/C09.lean`, `markerScan_nonneg`), so `Int.toNat` loses nothing. -/
+def fromFileReal (B : Nat) (f : PyFile) (maxrange : Nat) : Py XorFile :=
+  match iterNonceOffsets f none maxrange with             -- nonce_offsets = list(iter_nonce_offsets(fh, maxrange=maxrange))
+  | .error e => .error e
+  | .ok (nonceOffs, f1) =>
+    match markerScan B f1 maxrange with                   -- eof_shellcode_offsets = [offset + 3 for offset in iter_find_needle(...)]
+    | .error e => .error e
+    | .ok (hits, f2) => tryCandidatesFull f2 (candidates (hits.map Int.toNat) nonceOffs)
 
 end C09
